@@ -70,7 +70,7 @@ def gen_thread(rng, t, max_ops):
                      'kwargs': {'uid': uid(), 'x': child(depth + 1)}}}
 
   def new_op():
-    fn = rng.choice(['n0', 'n0', 'n1', 'n1', 'N2', 'N3', 'n4', 'n5'])
+    fn = rng.choice(['n0', 'n0', 'n1', 'n1', 'N2', 'N3', 'n4', 'n5', 'n6'])
     u = uid()
     if fn == 'n1':
       args = [u] + ([child()] if rng.random() < 0.7 else [])
